@@ -26,6 +26,7 @@ Local Open Scope byte_scope.
 Definition b_len : bytes := ["l";"e";"n"].
 Definition b_cap : bytes := ["c";"a";"p"].
 Definition b_static : bytes := ["s";"t";"a";"t";"i";"c"].
+Definition n_vok : bytes := ["v";"o";"k"].
 Local Close Scope byte_scope.
 
 Definition c_cond (c : acond) : condinfo :=
@@ -87,6 +88,12 @@ Fixpoint compile (a : ast) : list node :=
   | AIf c th el has_else =>
     [NCond (c_cond c) (NBlock BTrue no_case (merge_raws (c_list compile th)) ::
                        (if has_else then [NBlock BFalse no_case (merge_raws (c_list compile el))] else []))]
+  | AIfOK v okv arg arglit neg th el has_else =>
+    [NCondOK (mkOk v okv b_static)
+       (if neg then mkCond okv b_true false true OpNq n_vok [mkArg [] arg arglit false] LcNone
+        else mkCond okv [] false false OpUnk n_vok [mkArg [] arg arglit false] LcNone)
+       (NBlock BTrue no_case (merge_raws (c_list compile th)) ::
+        (if has_else then [NBlock BFalse no_case (merge_raws (c_list compile el))] else []))]
   | ASwitch arg cases dflt has_default =>
     [NSwitch arg (c_cases compile (match arg with [] => false | _ => true end) cases ++
                   (if has_default then [NBlock BDefault no_case (merge_raws (c_list compile dflt))] else []))]
